@@ -770,7 +770,14 @@ def handle_end_progs(state: TokenizerState) -> Iterator[TokenInfo]:
         # neither a brace nor the closing quote on the rest of a line that the literal cannot run past
         raise TokenError("unterminated f-string literal", (state.lnum, state.pos))
     else:
-        raise TokenError(f"unterminated string literal (detected at line {state.lnum})", state.end_progs[-1].start)
+        # a quote that its line neither closes nor continues: the start of the literal (prefix and quote) is an error
+        # token and the rest of the line is scanned as usual - raw macro text may hold an apostrophe, Python code not
+        prog = state.pop_mode()
+        if prog.more_text:  # backslash-continued up to the previous line: everything read so far is the error token
+            end = (state.lnum - 1, len(state.last_line))
+        else:
+            end = (prog.start[0], prog.start[1] + len(prog.text))
+        yield TokenInfo(Token.ERRORTOKEN, prog.full_text(), prog.start, end, prog.full_contline())
 
 
 _NOT_IN_LOGICAL_LINE: Final = {Token.NL, Token.COMMENT, Token.WS, Token.INDENT, Token.DEDENT}
